@@ -361,7 +361,7 @@ func (db *RockDB) ZFixKey(ts int64, key []byte) error {
 		dbLog.Infof("get zset card failed: %v", err.Error())
 		return err
 	}
-	elems, err := db.ZRange(key, 0, -1)
+	elems, err := db.zRangeGenericAt(ts, key, 0, -1, false)
 	if err != nil {
 		dbLog.Infof("get zset range failed: %v", err.Error())
 		return err
@@ -1032,7 +1032,12 @@ func (db *RockDB) ZRevRangeByScore(key []byte, min float64, max float64, offset 
 }
 
 func (db *RockDB) ZRangeGeneric(key []byte, start int, stop int, reverse bool) ([]common.ScorePair, error) {
-	tn := time.Now().UnixNano()
+	return db.zRangeGenericAt(time.Now().UnixNano(), key, start, stop, reverse)
+}
+
+// zRangeGenericAt decides "expired" at the given time (writes must use the
+// timestamp of their log entry, not the local clock)
+func (db *RockDB) zRangeGenericAt(tn int64, key []byte, start int, stop int, reverse bool) ([]common.ScorePair, error) {
 	keyInfo, err := db.getCollVerKeyForRange(tn, ZSetType, key, true)
 	if err != nil {
 		return nil, err
